@@ -170,6 +170,16 @@ def check_sort(spec):
         raise
 
 
+def _sort_lowering(out):
+    """Label for the signature (not part of the oracle): does the lowered expression shuffle, or did dask judge the
+    input 'presorted' and only sort inside each partition ('blockwise')?"""
+    try:
+        names = [type(n).__name__ for n in out.optimize(fuse=False).expr.walk()]
+    except Exception:  # noqa: BLE001 - label only; the failure is reported by the compute that follows
+        return "unknown"
+    return "shuffle" if any("Shuffle" in n for n in names) else "blockwise"
+
+
 def _check_sort(spec):
     op = spec["op"]
     with C.quiet():
@@ -187,12 +197,17 @@ def _check_sort(spec):
         sig["by_kind"] = next(c["kind"] for c in spec["columns"] if c["name"] == by[0])
         sig["na_in_by0"] = bool(pdf[by[0]].isna().any())
         sig["na_position"] = nap
+        # ... and whether some non-empty INPUT partition holds nothing but missing values in that key (its quantile
+        # summary then consists of nulls)
+        sig["all_na_partition"] = any(len(x) and bool(x.isna().all()) for x in C.partitions(ddf[by[0]]))
         with C.quiet():
             st_, want = reference(pdf.sort_values, by, ascending=asc if len(by) > 1 else asc[0], na_position=nap, kind="stable")
         if st_ == "err":
             raise Reject(f"pandas rejects: {want}")
         with impl("sort_values", **sig), C.quiet(), _cfg(sig["method"]):
             out = ddf.sort_values(by, ascending=asc if len(by) > 1 else asc[0], na_position=nap, npartitions=op.get("npartitions"), shuffle_method=sig["method"])
+            sig["lowering"] = _sort_lowering(out)
+        with impl("sort_values", **sig), C.quiet(), _cfg(sig["method"]):
             got = F.compute(out)
             parts = C.partitions(out)
         # Two observations of the same collection: compute() (whose final single-partition repartition the optimizer may
